@@ -30,6 +30,9 @@ CHECKS = {
  "C08": dict(engine="finite product enumerator", technique="exhaustive enumeration of the finite product symbol probe x candidate name x package locality on the real rename / prepare_rename; decision-table oracle",
    text="32 probes (every symbol kind at definition and use sites; symbols of the root package, of another local package and of a build/packages package; modules, built-ins, aliased spellings) x 43 candidate names (all keywords, valid/malformed identifiers of both cases, literals, operators, empty/space/multi-token, non-ASCII): rename must accept exactly when the table says so, never edit a dependency file, and agree with prepare_rename.",
    note="The mapping build/packages -> is_local=false is C17's; here the package graph is built directly.", ref="5/C08"),
+ "C09": dict(engine="E2 type-directed enumerator + reference HM for call graphs", technique="bounded exhaustive enumeration of typing derivations (expressions constructed by typing rules against a finite type universe, one-hole discipline) and of all call digraphs x item orders on the real inference (hover); types known by construction / by a reference Hindley-Milner; compared up to renaming of type variables",
+   text="Every expression derivable by the generator's typing rules to the depth bound against 15 target types is the value of a let whose binder's shown type must be the constructed type; a fixed list of pattern / lambda / case / use binders; all digraphs on <=3 unannotated functions (self loops included) x leaf kinds x ALL item orders, with expected principal types from a reference HM with SCC-wise generalisation.",
+   note="Depth 1 / graphs on 2 functions quick; depth 2 / graphs on 3 functions thorough. Failing expressions are re-checked alone (minimisation); keys name the first known-problematic construct an expression contains, else its shape.", ref="5/C09"),
  "C10": dict(engine="E3 query sweeper in a supervised child process", technique="bounded exhaustive enumeration of workspace damage (every single token edit, truncation, item duplication/removal, import rewiring, pathological shapes) x nearby offsets x all 15 query kinds on the real Analysis API; crash containment by journaled isolated re-runs",
    text="Every variant is built as the server builds workspaces and every query kind is called at every token boundary near the damage and at a stride elsewhere; a panic is caught per call, an abort/stack overflow/hang kills the supervised child and the journaled case is confirmed in isolation.",
    note="Offsets away from the edit are strided (stated in evidence). Worker threads have 2 MiB stacks like the server's blocking pool.", ref="5/C10"),
